@@ -57,6 +57,11 @@ def fam_probe_loss(seed, n):
 def fam_evict(seed, n):
     return [scen.evict_script(seed, i) for i in range(n)]
 
+@family("walk")
+def fam_walk(seed, n):
+    from . import walk
+    return walk.family(seed, n)
+
 @family("kf")
 def fam_kf(seed, n):
     return [scen.kf_d4(seed), scen.kf_d6(seed), scen.kf_d1b(seed), scen.kf_d14(seed), scen.kf_d6b(seed), scen.kf_d5(seed)]
@@ -203,7 +208,8 @@ std_check("C13", [("many", 80, 1200), ("backlog", 10, 100)],
 std_check("C14", [("mtu", 60, 1000), ("xfer", 20, 200), ("hostile", 20, 200)],
           ["C14.NeverAboveLink", "C14.OrdinaryWithinProven", "C14.OneProbe", "C14.Converges", "C14.LogProbes"],
           parts=[("mtu", None), ("segs", ["C14."])])
-std_check("C17", [("close", 100, 1500), ("peer_send", 40, 500), ("peer_recv", 40, 500), ("hostile", 20, 300)],
+std_check("C17", [("close", 100, 1500), ("peer_send", 40, 500), ("peer_recv", 40, 500), ("hostile", 20, 300),
+                  ("walk", 100, 1392)],
           ["C17.FinSeq", "C17.FinAfterData", "C17.NothingAfterFin", "C17.PeerFinInOrder", "C17.FinAnswered",
            "C17.ResetAborts", "C17.SynAckForm", "C17.SynAckRepeats", "C17.Transition"], model_spec=CLOSE_MODEL)
 std_check("C18", [("peer_send", 120, 2000), ("xfer", 30, 300)],
@@ -214,7 +220,8 @@ std_check("C19", [("peer_send", 100, 1500), ("xfer", 30, 300)],
 @check("C10")
 def c10(tier, seed):
     r = Result("C10", tier, seed)
-    scripts = fam_hostile(seed, sizes(tier, 100, 1500))
+    # (+ the TLC-generated walks over the connection state machine: every packet class in every state)
+    scripts = fam_hostile(seed, sizes(tier, 100, 1500)) + fam_walk(seed, sizes(tier, 100, 1392))
     r.samples = [sample_of(s) for s in scripts[:2]]
     res = core.run_and_validate("C10", scripts)
     # Isolation: any broken rule on the innocent connection (the one with socket B) while A is under attack
